@@ -139,6 +139,7 @@ func runC16(p *Program, r *Report) {
 	r.Rule("R16.2", "E4", 40, "for every AST struct type, each field that may (transitively) hold a literal and that Format prints is handed to Walk by walkSubtree; a printed-but-unwalked field keeps its literals in the redacted text")
 	r.Rule("R16.3", "E2", 300, "no raw statement text (GetSimpleQuery, Parse QueryString, mysql command payload, OnQueryObject.Query, HandleQuery's rawQuery, HandleRawSQLQuery result 0, sqlparser.String of a tree) reaches a logrus formatting argument or field value; result 1 of HandleRawSQLQuery / RedactSQLQuery output is the sanitizer; the operator-configured capture file writer is the only raw sink allowed")
 	r.Rule("R16.4", "E3", 2, "the functions producing the redacted text (HandleRawSQLQuery, RedactSQLQuery) never print a NotParsedStatement (whose Format echoes the raw input): the statement handed to String comes from a parser constructed strict in the same function, or a type test for NotParsedStatement dominates the print on its false edge")
+	r.Rule("R16.5", "E4", 2, "the redaction walk never prunes: a visitor function that Normalize hands to Walk returns kontinue=false only right after delegating the same node to another Walk (mode switch); any other 'false' skips a subtree whose literals then stay in the redacted text")
 	a := newSQLAST(p, r, "R16.1")
 	if a == nil {
 		return
@@ -147,6 +148,7 @@ func runC16(p *Program, r *Report) {
 	ruleR162(p, r, a)
 	ruleR163(p, r)
 	ruleR164(p, r)
+	ruleR165(p, r)
 }
 
 func ruleR161(p *Program, r *Report, a *sqlAST) {
@@ -735,4 +737,117 @@ func init() {
 	mut("C16", "censor logs the raw query when denying", "acra-censor/acra-censor_implementation.go", "acraCensor.logDeniedQuery(queryWithHiddenValues, handler, parsedQuery)", "acraCensor.logDeniedQuery(rawQuery, handler, parsedQuery)", "R16.3", "logDeniedQuery")
 	mut("C16", "mysql proxy logs the re-serialised statement", "decryptor/mysql/response_proxy.go", `clientLog.WithError(err).WithField(logging.FieldKeyEventCode, logging.EventCodeErrorEncryptQueryData).Errorln("Error occurred on query handler")`, `clientLog.WithError(err).WithField("q", queryObj.Query()).Errorln("Error occurred on query handler")`, "R16.3", "ProxyClientConnection")
 	mut("C16", "echo unparsed statements as redacted text again", "sqlparser/ast_methods.go", "if _, notParsed := stmt.(NotParsedStatement); notParsed {", "if _, notParsed := stmt.(NotParsedStatement); notParsed && false {", "R16.4", "HandleRawSQLQuery")
+}
+
+func ruleR165(p *Program, r *Report) {
+	pk := p.Pkg("sqlparser")
+	walk := p.FuncObj("sqlparser.Walk")
+	norm := p.FuncObj("sqlparser.Normalize")
+	if pk == nil || walk == nil || norm == nil {
+		r.Anchor("R16.5", "sqlparser.Walk / sqlparser.Normalize")
+		return
+	}
+	decls := funcDeclsOf(pk)
+	// visitors: functions passed as first argument to Walk, transitively from Normalize
+	visitors := map[*types.Func]bool{}
+	var scan func(fd *ast.FuncDecl)
+	seen := map[*ast.FuncDecl]bool{}
+	scan = func(fd *ast.FuncDecl) {
+		if fd == nil || fd.Body == nil || seen[fd] {
+			return
+		}
+		seen[fd] = true
+		ast.Inspect(fd.Body, func(n ast.Node) bool {
+			call, ok := n.(*ast.CallExpr)
+			if !ok || calleeObj(pk.TypesInfo, call) != walk || len(call.Args) == 0 {
+				return true
+			}
+			var vf *types.Func
+			switch a := ast.Unparen(call.Args[0]).(type) {
+			case *ast.SelectorExpr:
+				vf, _ = pk.TypesInfo.Uses[a.Sel].(*types.Func)
+			case *ast.Ident:
+				vf, _ = pk.TypesInfo.Uses[a].(*types.Func)
+			}
+			if vf != nil && !visitors[vf] {
+				visitors[vf] = true
+				scan(decls[vf])
+			}
+			return true
+		})
+	}
+	scan(decls[norm])
+	if len(visitors) == 0 {
+		r.Bad("R16.5", "sqlparser.Normalize", "visitor functions", p.Pos(norm.Pos()), "Normalize no longer hands a named visitor to Walk; the rule cannot see the traversal")
+		return
+	}
+	for vf := range visitors {
+		fd := decls[vf]
+		if fd == nil || fd.Body == nil {
+			continue
+		}
+		name := funcFullName(vf)
+		n := 0
+		var inspectList func(list []ast.Stmt)
+		check := func(list []ast.Stmt, i int, rs *ast.ReturnStmt) {
+			if len(rs.Results) == 0 {
+				return
+			}
+			if id, ok := ast.Unparen(rs.Results[0]).(*ast.Ident); ok && id.Name == "true" {
+				n++
+				r.OK("R16.5", name, "return true", p.Pos(rs.Pos()), "descends")
+				return
+			}
+			n++
+			delegated := false
+			if i > 0 {
+				var call *ast.CallExpr
+				switch st := list[i-1].(type) {
+				case *ast.ExprStmt:
+					call, _ = st.X.(*ast.CallExpr)
+				case *ast.AssignStmt:
+					if len(st.Rhs) == 1 {
+						call, _ = st.Rhs[0].(*ast.CallExpr)
+					}
+				}
+				if call != nil && calleeObj(pk.TypesInfo, call) == walk && len(call.Args) >= 2 {
+					delegated = true
+				}
+			}
+			r.Check(delegated, "R16.5", name, "return "+types.ExprString(rs.Results[0]), p.Pos(rs.Pos()), "subtree delegated to another Walk immediately before", "the visitor stops the descent without walking the subtree itself: literals below this node are never replaced and appear in the redacted statement")
+		}
+		inspectList = func(list []ast.Stmt) {
+			for i, st := range list {
+				switch x := st.(type) {
+				case *ast.ReturnStmt:
+					check(list, i, x)
+				case *ast.BlockStmt:
+					inspectList(x.List)
+				case *ast.IfStmt:
+					inspectList(x.Body.List)
+					if eb, ok := x.Else.(*ast.BlockStmt); ok {
+						inspectList(eb.List)
+					} else if ei, ok := x.Else.(*ast.IfStmt); ok {
+						inspectList([]ast.Stmt{ei})
+					}
+				case *ast.SwitchStmt:
+					for _, c := range x.Body.List {
+						inspectList(c.(*ast.CaseClause).Body)
+					}
+				case *ast.TypeSwitchStmt:
+					for _, c := range x.Body.List {
+						inspectList(c.(*ast.CaseClause).Body)
+					}
+				case *ast.ForStmt:
+					inspectList(x.Body.List)
+				case *ast.RangeStmt:
+					inspectList(x.Body.List)
+				}
+			}
+		}
+		inspectList(fd.Body.List)
+		if n == 0 {
+			r.Bad("R16.5", name, "returns", p.Pos(fd.Pos()), "no return statements found in visitor")
+		}
+	}
 }
